@@ -7,19 +7,20 @@ namespace YaegiVerif.Proofs.C09
 open YaegiVerif.RunId
 
 /-- goroutine-local part of the post-cancellation invariant: every frame is stale; a goroutine that has not made
-    its frame yet will get the (stale) id of the frame that started it; a blocked operation races the closed
-    channel; the operation in flight, if any, runs on a frame whose done channel is the closed one, and if it is a
-    call of a function value it is in the goroutine of `Execute` (which has not returned: the root id is stale),
-    if it is a `go` statement it is not of a function value -/
+    its frame yet will get the (stale) id of the frame that started it, or belongs to a function value of the
+    cancelled evaluation (its frame will get the dead id); a blocked operation races the closed channel; the operation
+    in flight, if any, runs on a frame whose done channel is the closed one, and if it is a call or a `go` statement
+    of a function value, that function value belongs to the cancelled evaluation, not to an earlier one -/
 structure DeadG (F : RunIdFacts) (cur : Nat) (g : G) : Prop where
   stale : ∀ fr ∈ g.stack, fr.id < cur
-  pend : ∀ pd, g.pending = some pd → F.site pd.site = .parent ∧ pd.pid < cur
+  pend : ∀ pd, g.pending = some pd →
+    (F.site pd.site = .parent ∧ pd.pid < cur) ∨ (F.site pd.site = .epoch ∧ childEarly pd.site pd.pearly = false)
   rel : ∀ k r, g.blocked = some (k, r) → r = true
   wf : g.blocked.isSome = true → g.armed = false
   arm : g.armed = true → ∀ fr rest, g.stack = fr :: rest →
     fr.cur = true ∧ fr.pc.canc F = true ∧
-    (∀ s b p, fr.pc = .call s b p → F.site s = .parent ∨ g.main = true) ∧
-    (∀ s b p, fr.pc = .spawn s b p → F.site s = .parent)
+    (∀ s b p, fr.pc = .call s b p → F.site s = .parent ∨ childEarly s fr.early = false) ∧
+    (∀ s b p, fr.pc = .spawn s b p → F.site s = .parent ∨ childEarly s fr.early = false)
 
 /-- operations executed so far, plus the one operation that is in flight -/
 def pot (g : G) : Nat := g.ops + (if g.armed then 1 else 0)
@@ -41,16 +42,29 @@ structure DeadOut (F : RunIdFacts) (σ : St) (g : G) (o : Out) : Prop where
     o.g.weight + sumWeights o.spawned + 2 * o.list.length < g.weight + 2 * σ.runList.length
 
 theorem deadG_unarmed {F : RunIdFacts} {cur : Nat} {g : G} (hs : ∀ fr ∈ g.stack, fr.id < cur)
-    (hp : ∀ pd, g.pending = some pd → F.site pd.site = .parent ∧ pd.pid < cur)
+    (hp : ∀ pd, g.pending = some pd →
+      (F.site pd.site = .parent ∧ pd.pid < cur) ∨ (F.site pd.site = .epoch ∧ childEarly pd.site pd.pearly = false))
     (hb : g.blocked = none) (ha : g.armed = false) : DeadG F cur g :=
   ⟨hs, hp, (fun k r h => by rw [hb] at h; cases h), (fun _ => ha), (fun h => by rw [ha] at h; cases h)⟩
 
-/-- One transition of a goroutine whose frames are all stale, with `done` closed (and, for the goroutine of
-    `Execute`, a stale root id as long as it has not finished): it stays dead, it is not armed afterwards, it
-    executes at most its in-flight operation, what it spawns is dead and has executed nothing, and the measure drops. -/
+/-- the id of the frame of a call made after the cancellation, at a site the invariant allows -/
+theorem newId_dead {F : RunIdFacts} (hF : Sound F) (σ : St) (s : Site) (pid : Nat) (early : Bool)
+    (hm : σ.marked = true) (hpos : 0 < σ.id) (hp : pid < σ.id)
+    (hs : F.site s = .parent ∨ childEarly s early = false) :
+    newId (F.site s) pid σ.id σ.rootId (deadNow σ (childEarly s early)) < σ.id := by
+  rcases hF.site s with h | h
+  · simpa [h, newId] using hp
+  · rcases hs with h' | h'
+    · rw [h] at h'; cases h'
+    · simp [h, newId, deadNow, hm, h', hpos]
+
+/-- One transition of a goroutine whose frames are all stale, with `done` closed, the epoch of the evaluation marked
+    and a stale root id: it stays dead, it is not armed afterwards, it executes at most its in-flight operation, what
+    it spawns is dead and has executed nothing, and the measure drops. -/
 theorem stepG_dead {F : RunIdFacts} (hF : Sound F) (σ : St) (g : G) (hdone : σ.done = true)
-    (hmain : g.main = true → σ.rootId < σ.id ∨ (σ.runList = [] ∧ finished g = true))
+    (hm : σ.marked = true) (hroot : σ.rootId < σ.id)
     (h : DeadG F σ.id g) : DeadOut F σ g (stepG F σ g) := by
+  have hpos : 0 < σ.id := by omega
   obtain ⟨hst, hpe, hrel, hwf, harm⟩ := h
   obtain ⟨stack, armed, blocked, ops, ticks, main, pending⟩ := g
   cases blocked with
@@ -83,13 +97,13 @@ theorem stepG_dead {F : RunIdFacts} (hF : Sound F) (σ : St) (g : G) (hdone : σ
         · simp [G.weight, sumWeights] <;> omega
         · intro _; simp [G.weight, sumWeights] <;> omega
       | cons fr rest =>
-        obtain ⟨fid, pc, fcur⟩ := fr
-        have hfid : fid < σ.id := hst ⟨fid, pc, fcur⟩ (by simp)
+        obtain ⟨fid, pc, fcur, fearly⟩ := fr
+        have hfid : fid < σ.id := hst ⟨fid, pc, fcur, fearly⟩ (by simp)
         have hrest : ∀ x ∈ rest, x.id < σ.id := fun x hx => hst x (by simp [hx])
-        obtain ⟨hfc, hpc, hcall, hspawn⟩ := harm rfl ⟨fid, pc, fcur⟩ rest rfl
+        obtain ⟨hfc, hpc, hcall, hspawn⟩ := harm rfl ⟨fid, pc, fcur, fearly⟩ rest rfl
         simp only at hfc hpc hcall hspawn
         subst hfc
-        have hcons : ∀ p : Prog, ∀ x ∈ (⟨fid, p, true⟩ :: rest : List Frame), x.id < σ.id := by
+        have hcons : ∀ p : Prog, ∀ x ∈ (⟨fid, p, true, fearly⟩ :: rest : List Frame), x.id < σ.id := by
           intro p x hx
           simp only [List.mem_cons] at hx
           rcases hx with rfl | hx
@@ -97,51 +111,45 @@ theorem stepG_dead {F : RunIdFacts} (hF : Sound F) (σ : St) (g : G) (hdone : σ
           · exact hrest x hx
         cases pc with
         | done =>
-          have key : stepG F σ { stack := ⟨fid, .done, true⟩ :: rest, armed := true, blocked := none, ops := ops, ticks := ticks, main := main, pending := pending } =
-              ⟨{ stack := ⟨fid, .done, true⟩ :: rest, armed := false, blocked := none, ops := ops, ticks := ticks, main := main, pending := pending }, [], σ.runList, σ.rootCur⟩ := by
+          have key : stepG F σ { stack := ⟨fid, .done, true, fearly⟩ :: rest, armed := true, blocked := none, ops := ops, ticks := ticks, main := main, pending := pending } =
+              ⟨{ stack := ⟨fid, .done, true, fearly⟩ :: rest, armed := false, blocked := none, ops := ops, ticks := ticks, main := main, pending := pending }, [], σ.runList, σ.rootCur⟩ := by
             simp [stepG, execOp]
           rw [key]
           refine ⟨deadG_unarmed (hcons _) hpe rfl rfl, rfl, by simp [pot, tpot], by simp, fun h => h, ?_, ?_⟩
           · simp [G.weight, sumWeights] <;> omega
           · intro _; simp [G.weight, sumWeights] <;> omega
         | step p =>
-          have key : stepG F σ { stack := ⟨fid, .step p, true⟩ :: rest, armed := true, blocked := none, ops := ops, ticks := ticks, main := main, pending := pending } =
-              ⟨{ stack := ⟨fid, p, true⟩ :: rest, armed := false, blocked := none, ops := ops + 1, ticks := ticks, main := main, pending := pending }, [], σ.runList, σ.rootCur⟩ := by
+          have key : stepG F σ { stack := ⟨fid, .step p, true, fearly⟩ :: rest, armed := true, blocked := none, ops := ops, ticks := ticks, main := main, pending := pending } =
+              ⟨{ stack := ⟨fid, p, true, fearly⟩ :: rest, armed := false, blocked := none, ops := ops + 1, ticks := ticks, main := main, pending := pending }, [], σ.runList, σ.rootCur⟩ := by
             simp [stepG, execOp]
           rw [key]
           refine ⟨deadG_unarmed (hcons _) hpe rfl rfl, rfl, by simp [pot, tpot], by simp, fun h => h, ?_, ?_⟩
           · simp [G.weight, sumWeights] <;> omega
           · intro _; simp [G.weight, sumWeights] <;> omega
         | tick p =>
-          have key : stepG F σ { stack := ⟨fid, .tick p, true⟩ :: rest, armed := true, blocked := none, ops := ops, ticks := ticks, main := main, pending := pending } =
-              ⟨{ stack := ⟨fid, p, true⟩ :: rest, armed := false, blocked := none, ops := ops + 1, ticks := ticks + 1, main := main, pending := pending }, [], σ.runList, σ.rootCur⟩ := by
+          have key : stepG F σ { stack := ⟨fid, .tick p, true, fearly⟩ :: rest, armed := true, blocked := none, ops := ops, ticks := ticks, main := main, pending := pending } =
+              ⟨{ stack := ⟨fid, p, true, fearly⟩ :: rest, armed := false, blocked := none, ops := ops + 1, ticks := ticks + 1, main := main, pending := pending }, [], σ.runList, σ.rootCur⟩ := by
             simp [stepG, execOp]
           rw [key]
           refine ⟨deadG_unarmed (hcons _) hpe rfl rfl, rfl, by simp [pot, tpot], by simp, fun h => h, ?_, ?_⟩
           · simp [G.weight, sumWeights] <;> omega
           · intro _; simp [G.weight, sumWeights] <;> omega
         | mkclosure p =>
-          have key : stepG F σ { stack := ⟨fid, .mkclosure p, true⟩ :: rest, armed := true, blocked := none, ops := ops, ticks := ticks, main := main, pending := pending } =
-              ⟨{ stack := ⟨fid, p, true⟩ :: rest, armed := false, blocked := none, ops := ops + 1, ticks := ticks, main := main, pending := pending }, [], σ.runList, σ.rootCur⟩ := by
+          have key : stepG F σ { stack := ⟨fid, .mkclosure p, true, fearly⟩ :: rest, armed := true, blocked := none, ops := ops, ticks := ticks, main := main, pending := pending } =
+              ⟨{ stack := ⟨fid, p, true, fearly⟩ :: rest, armed := false, blocked := none, ops := ops + 1, ticks := ticks, main := main, pending := pending }, [], σ.runList, σ.rootCur⟩ := by
             simp [stepG, execOp]
           rw [key]
           refine ⟨deadG_unarmed (hcons _) hpe rfl rfl, rfl, by simp [pot, tpot], by simp, fun h => h, ?_, ?_⟩
           · simp [G.weight, sumWeights] <;> omega
           · intro _; simp [G.weight, sumWeights] <;> omega
         | call s body p =>
-          have key : stepG F σ { stack := ⟨fid, .call s body p, true⟩ :: rest, armed := true, blocked := none, ops := ops, ticks := ticks, main := main, pending := pending } =
-              ⟨{ stack := ⟨newId (F.site s) fid σ.id σ.rootId, body, childCur F s true σ.rootCur⟩ :: ⟨fid, p, true⟩ :: rest,
+          have key : stepG F σ { stack := ⟨fid, .call s body p, true, fearly⟩ :: rest, armed := true, blocked := none, ops := ops, ticks := ticks, main := main, pending := pending } =
+              ⟨{ stack := ⟨newId (F.site s) fid σ.id σ.rootId (deadNow σ (childEarly s fearly)), body,
+                            childCur F s true σ.rootCur (curNow σ), childEarly s fearly⟩ :: ⟨fid, p, true, fearly⟩ :: rest,
                  armed := false, blocked := none, ops := ops + 1, ticks := ticks, main := main, pending := pending }, [], σ.runList, σ.rootCur⟩ := by
             simp [stepG, execOp]
           rw [key]
-          have hnew : newId (F.site s) fid σ.id σ.rootId < σ.id := by
-            rcases hF.site s with hs | hs
-            · simpa [hs, newId] using hfid
-            · rcases hcall s body p rfl with hp | hm
-              · rw [hp] at hs; cases hs
-              · rcases hmain hm with hr | hr
-                · simpa [hs, newId] using hr
-                · have := hr.2; simp [finished] at this
+          have hnew := newId_dead hF σ s fid fearly hm hpos hfid (hcall s body p rfl)
           refine ⟨deadG_unarmed ?_ hpe rfl rfl, rfl, by simp [pot, tpot], by simp, fun h => h, ?_, ?_⟩
           · intro x hx
             simp only [List.mem_cons] at hx
@@ -151,9 +159,9 @@ theorem stepG_dead {F : RunIdFacts} (hF : Sound F) (σ : St) (g : G) (hdone : σ
           · simp [G.weight, sumWeights] <;> omega
           · intro _; simp [G.weight, sumWeights] <;> omega
         | spawn ss body p =>
-          have key : stepG F σ { stack := ⟨fid, .spawn ss body p, true⟩ :: rest, armed := true, blocked := none, ops := ops, ticks := ticks, main := main, pending := pending } =
-              ⟨{ stack := ⟨fid, p, true⟩ :: rest, armed := false, blocked := none, ops := ops + 1, ticks := ticks, main := main, pending := pending },
-               [newG ⟨ss, fid, true, body⟩], σ.runList, σ.rootCur⟩ := by
+          have key : stepG F σ { stack := ⟨fid, .spawn ss body p, true, fearly⟩ :: rest, armed := true, blocked := none, ops := ops, ticks := ticks, main := main, pending := pending } =
+              ⟨{ stack := ⟨fid, p, true, fearly⟩ :: rest, armed := false, blocked := none, ops := ops + 1, ticks := ticks, main := main, pending := pending },
+               [newG ⟨ss, fid, true, fearly, body⟩], σ.runList, σ.rootCur⟩ := by
             simp [stepG, execOp]
           rw [key]
           refine ⟨deadG_unarmed (hcons _) hpe rfl rfl, rfl, by simp [pot, tpot], ?_, fun h => h, ?_, ?_⟩
@@ -164,14 +172,18 @@ theorem stepG_dead {F : RunIdFacts} (hF : Sound F) (σ : St) (g : G) (hdone : σ
             intro pd hpd
             simp only [newG, Option.some.injEq] at hpd
             subst hpd
-            exact ⟨hspawn ss body p rfl, hfid⟩
+            rcases hF.site ss with h1 | h1
+            · exact Or.inl ⟨h1, hfid⟩
+            · rcases hspawn ss body p rfl with h2 | h2
+              · rw [h1] at h2; cases h2
+              · exact Or.inr ⟨h1, h2⟩
           · simp [G.weight, sumWeights, newG] <;> omega
           · intro _; simp [G.weight, sumWeights, newG] <;> omega
         | block k c p =>
           have hcc : cancellable F k c = true := by
             simp only [Prog.canc, Bool.and_eq_true] at hpc; exact hpc.1
-          have key : stepG F σ { stack := ⟨fid, .block k c p, true⟩ :: rest, armed := true, blocked := none, ops := ops, ticks := ticks, main := main, pending := pending } =
-              ⟨{ stack := ⟨fid, p, true⟩ :: rest, armed := false, blocked := some (k, true), ops := ops + 1, ticks := ticks, main := main, pending := pending }, [], σ.runList, σ.rootCur⟩ := by
+          have key : stepG F σ { stack := ⟨fid, .block k c p, true, fearly⟩ :: rest, armed := true, blocked := none, ops := ops, ticks := ticks, main := main, pending := pending } =
+              ⟨{ stack := ⟨fid, p, true, fearly⟩ :: rest, armed := false, blocked := some (k, true), ops := ops + 1, ticks := ticks, main := main, pending := pending }, [], σ.runList, σ.rootCur⟩ := by
             simp [stepG, execOp, hcc]
           rw [key]
           refine ⟨⟨hcons _, hpe, ?_, fun _ => rfl, fun h => by cases h⟩, rfl, by simp [pot, tpot], by simp, fun h => h, ?_, ?_⟩
@@ -183,17 +195,22 @@ theorem stepG_dead {F : RunIdFacts} (hF : Sound F) (σ : St) (g : G) (hdone : σ
     | false =>
       cases pending with
       | some pd =>
-        obtain ⟨hsite, hpid⟩ := hpe pd rfl
+        have hnew : newId (F.site pd.site) pd.pid σ.id σ.rootId (deadNow σ (childEarly pd.site pd.pearly)) < σ.id := by
+          rcases hpe pd rfl with ⟨h1, h2⟩ | ⟨h1, h2⟩
+          · simpa [h1, newId] using h2
+          · simp [h1, newId, deadNow, hm, h2, hpos]
         have key : stepG F σ { stack := stack, armed := false, blocked := none, ops := ops, ticks := ticks, main := main, pending := some pd } =
-            ⟨{ stack := [⟨pd.pid, pd.body, childCur F pd.site pd.pcur σ.rootCur⟩], armed := false, blocked := none, ops := ops, ticks := ticks, main := main, pending := none },
+            ⟨{ stack := [⟨newId (F.site pd.site) pd.pid σ.id σ.rootId (deadNow σ (childEarly pd.site pd.pearly)), pd.body,
+                          childCur F pd.site pd.pcur σ.rootCur (curNow σ), childEarly pd.site pd.pearly⟩],
+               armed := false, blocked := none, ops := ops, ticks := ticks, main := main, pending := none },
              [], σ.runList, σ.rootCur⟩ := by
-          simp [stepG, advance, hsite, newId]
+          simp [stepG, advance]
         rw [key]
         refine ⟨deadG_unarmed ?_ (fun pd' h => by cases h) rfl rfl, rfl, by simp [pot, tpot], by simp, fun h => h, ?_, ?_⟩
         · intro x hx
           simp only [List.mem_cons, List.not_mem_nil, or_false] at hx
           subst hx
-          exact hpid
+          exact hnew
         · simp [G.weight, sumWeights] <;> omega
         · intro _; simp [G.weight, sumWeights] <;> omega
       | none =>
@@ -217,10 +234,6 @@ theorem stepG_dead {F : RunIdFacts} (hF : Sound F) (σ : St) (g : G) (hdone : σ
               exact ⟨deadG_unarmed (by simp) (fun pd' h => by cases h) rfl rfl, rfl, by simp [pot, tpot], by simp, fun _ => rfl,
                 by simp [G.weight, sumWeights, hl], by simp [G.active, G.weight, hl]⟩
             | cons e es =>
-              have hroot : σ.rootId < σ.id := by
-                rcases hmain rfl with hr | hr
-                · exact hr
-                · rw [hl] at hr; cases hr.1
               by_cases hx : (F.execChecksCancel && σ.done) = true
               · have key : stepG F σ { stack := [], armed := false, blocked := none, ops := ops, ticks := ticks, main := true, pending := none } =
                     ⟨{ stack := [], armed := false, blocked := none, ops := ops, ticks := ticks, main := true, pending := none }, [], [], σ.rootCur⟩ := by
@@ -229,7 +242,7 @@ theorem stepG_dead {F : RunIdFacts} (hF : Sound F) (σ : St) (g : G) (hdone : σ
                 exact ⟨deadG_unarmed (by simp) (fun pd' h => by cases h) rfl rfl, rfl, by simp [pot, tpot], by simp, fun _ => rfl,
                   by simp [G.weight, sumWeights], by simp [G.weight, sumWeights, hl]⟩
               · have key : stepG F σ { stack := [], armed := false, blocked := none, ops := ops, ticks := ticks, main := true, pending := none } =
-                    ⟨{ stack := [⟨σ.rootId, e.prog, curNow σ⟩], armed := false, blocked := none, ops := ops, ticks := ticks, main := true, pending := none },
+                    ⟨{ stack := [⟨σ.rootId, e.prog, curNow σ, false⟩], armed := false, blocked := none, ops := ops, ticks := ticks, main := true, pending := none },
                      [], es, if e.root then curNow σ else σ.rootCur⟩ := by
                   simp [stepG, advance, hl, hx, hF.entry, newId]
                 rw [key]
@@ -241,11 +254,11 @@ theorem stepG_dead {F : RunIdFacts} (hF : Sound F) (σ : St) (g : G) (hdone : σ
                 · simp [G.weight, sumWeights, hl] <;> omega
                 · intro _; simp [G.weight, sumWeights, hl] <;> omega
         | cons fr rest =>
-          obtain ⟨fid, pc, fcur⟩ := fr
-          have hfid : fid < σ.id := hst ⟨fid, pc, fcur⟩ (by simp)
+          obtain ⟨fid, pc, fcur, fearly⟩ := fr
+          have hfid : fid < σ.id := hst ⟨fid, pc, fcur, fearly⟩ (by simp)
           have hrest : ∀ x ∈ rest, x.id < σ.id := fun x hx => hst x (by simp [hx])
           have hg := guard_stale hF hfid
-          have key : stepG F σ { stack := ⟨fid, pc, fcur⟩ :: rest, armed := false, blocked := none, ops := ops, ticks := ticks, main := main, pending := none } =
+          have key : stepG F σ { stack := ⟨fid, pc, fcur, fearly⟩ :: rest, armed := false, blocked := none, ops := ops, ticks := ticks, main := main, pending := none } =
               ⟨{ stack := rest, armed := false, blocked := none, ops := ops, ticks := ticks, main := main, pending := none }, [], σ.runList, σ.rootCur⟩ := by
             cases pc <;> simp [stepG, advance, hg]
           rw [key]
@@ -264,13 +277,15 @@ theorem stepG_finished (F : RunIdFacts) (σ : St) (g : G) (hf : finished g = tru
 
 /-! ### the whole state -/
 
-/-- the state after a cancellation inside the domain: `done` is closed, every frame is stale, every blocking
-    operation races `done`, and the root frame is stale until `Execute` has returned -/
+/-- the state after a cancellation inside the domain: `done` is closed, the epoch of the evaluation is marked, every
+    frame — the root frame included, for good: nothing refreshes it when `Execute` returns — is stale, every blocking
+    operation races `done` -/
 structure Dead (F : RunIdFacts) (σ : St) : Prop where
   done : σ.done = true
+  marked : σ.marked = true
   mainOk : MainOk σ
   gs : ∀ g ∈ σ.gs, DeadG F σ.id g
-  root : σ.rootId < σ.id ∨ (σ.runList = [] ∧ ∀ g, σ.gs[0]? = some g → finished g = true)
+  root : σ.rootId < σ.id
 
 def potAt (σ : St) (i : Nat) : Nat := match σ.gs[i]? with | some g => pot g | none => 0
 def tpotAt (σ : St) (i : Nat) : Nat := match σ.gs[i]? with | some g => tpot g | none => 0
@@ -292,15 +307,10 @@ theorem sumWeights_set (l : List G) (i : Nat) (g g' : G) (h : l[i]? = some g) :
       have := ih n h
       simp [sumWeights]; omega
 
-/-- the hypothesis `stepG_dead` needs about the goroutine of `Execute`, from the state invariant -/
-theorem dead_hmain {F : RunIdFacts} {σ : St} (h : Dead F σ) {i : Nat} {g : G} (hg : σ.gs[i]? = some g) :
-    g.main = true → σ.rootId < σ.id ∨ (σ.runList = [] ∧ finished g = true) := by
-  intro hm
-  have hi : i = 0 := h.mainOk.main0 i g hg hm
-  subst hi
-  rcases h.root with hr | hr
-  · exact Or.inl hr
-  · exact Or.inr ⟨hr.1, hr.2 g hg⟩
+/-- what `execReturn` leaves alone, the root id included when `Execute` has no deferred refresh -/
+theorem execReturn_more {F : RunIdFacts} (hF : Sound F) (m f : Bool) (σ : St) :
+    (execReturn F m f σ).rootId = σ.rootId ∧ (execReturn F m f σ).marked = σ.marked := by
+  unfold execReturn; split <;> simp [hF.noret]
 
 theorem dead_stepRun {F : RunIdFacts} (hF : Sound F) (σ : St) (i : Nat) (h : Dead F σ) : Dead F (stepRun F σ i) := by
   have hmo := mainOk_step F σ (.run i) h.mainOk
@@ -311,52 +321,18 @@ theorem dead_stepRun {F : RunIdFacts} (hF : Sound F) (σ : St) (i : Nat) (h : De
   | none => intro _; exact h
   | some g =>
     intro hmo
-    have hd := stepG_dead hF σ g h.done (dead_hmain h hg) (h.gs g (List.mem_of_getElem? hg))
-    have hi : i < σ.gs.length := (List.getElem?_eq_some_iff.mp hg).1
-    obtain ⟨m1, m2, m3, m4, _, _⟩ := execReturn_fields F g.main (finished (stepG F σ g).g && (stepG F σ g).list.isEmpty)
+    have hd := stepG_dead hF σ g h.done h.marked h.root (h.gs g (List.mem_of_getElem? hg))
+    obtain ⟨m1, m2, m3, _, _, _⟩ := execReturn_fields F g.main (finished (stepG F σ g).g && (stepG F σ g).list.isEmpty)
       { σ with gs := σ.gs.set i (stepG F σ g).g ++ (stepG F σ g).spawned, runList := (stepG F σ g).list, rootCur := (stepG F σ g).rootCur }
-    refine ⟨by rw [m3]; exact h.done, hmo, ?_, ?_⟩
-    · rw [m1, m2]
-      intro x hx
-      rcases mem_set_append hx with hx | hx | hx
-      · exact h.gs x hx
-      · subst hx; exact hd.dead
-      · exact (hd.spawned x hx).1
-    · rw [m1, m2, m4]
-      -- the first goroutine afterwards
-      have h0 : ∀ x, (σ.gs.set i (stepG F σ g).g ++ (stepG F σ g).spawned)[0]? = some x →
-          (i = 0 ∧ x = (stepG F σ g).g) ∨ (i ≠ 0 ∧ σ.gs[0]? = some x) := by
-        intro x hx
-        have hpos : 0 < σ.gs.length := by omega
-        rw [List.getElem?_append_left (by simpa using hpos)] at hx
-        by_cases hi0 : i = 0
-        · subst hi0
-          simp [hpos] at hx
-          exact Or.inl ⟨rfl, hx.symm⟩
-        · rw [List.getElem?_set_ne hi0] at hx
-          exact Or.inr ⟨hi0, hx⟩
-      rcases h.root with hr | hr
-      · -- the root id is stale before: it stays so unless `Execute` returns now
-        rcases execReturn_root F g.main (finished (stepG F σ g).g && (stepG F σ g).list.isEmpty)
-          { σ with gs := σ.gs.set i (stepG F σ g).g ++ (stepG F σ g).spawned, runList := (stepG F σ g).list, rootCur := (stepG F σ g).rootCur } with he | he
-        · exact Or.inl (by rw [he]; exact hr)
-        · have hfire := he.1
-          simp only [Bool.and_eq_true, List.isEmpty_iff] at hfire
-          obtain ⟨hm, hfin, hlist⟩ := hfire
-          have hi0 : i = 0 := h.mainOk.main0 i g hg hm
-          refine Or.inr ⟨hlist, ?_⟩
-          intro x hx
-          rcases h0 x hx with ⟨_, rfl⟩ | ⟨hne, _⟩
-          · exact hfin
-          · exact absurd hi0 hne
-      · -- `Execute` has returned: nothing moves at the first goroutine any more
-        refine Or.inr ⟨hd.list hr.1, ?_⟩
-        intro x hx
-        rcases h0 x hx with ⟨hi0, rfl⟩ | ⟨_, hx0⟩
-        · subst hi0
-          have := stepG_finished F σ g (hr.2 g hg) hr.1
-          rw [this.1]; exact hr.2 g hg
-        · exact hr.2 x hx0
+    obtain ⟨m5, m6⟩ := execReturn_more hF g.main (finished (stepG F σ g).g && (stepG F σ g).list.isEmpty)
+      { σ with gs := σ.gs.set i (stepG F σ g).g ++ (stepG F σ g).spawned, runList := (stepG F σ g).list, rootCur := (stepG F σ g).rootCur }
+    refine ⟨by rw [m3]; exact h.done, by rw [m6]; exact h.marked, hmo, ?_, by rw [m5, m2]; exact h.root⟩
+    rw [m1, m2]
+    intro x hx
+    rcases mem_set_append hx with hx | hx | hx
+    · exact h.gs x hx
+    · subst hx; exact hd.dead
+    · exact (hd.spawned x hx).1
 
 theorem dead_stepComm {F : RunIdFacts} (σ : St) (i : Nat) (h : Dead F σ) : Dead F (stepComm σ i) := by
   have hmo := mainOk_step F σ (.comm i) h.mainOk
@@ -370,39 +346,27 @@ theorem dead_stepComm {F : RunIdFacts} (σ : St) (i : Nat) (h : Dead F σ) : Dea
     · intro _; exact h
     · rename_i v hb
       intro hmo
-      have hi : i < σ.gs.length := (List.getElem?_eq_some_iff.mp hg).1
-      refine ⟨h.done, hmo, ?_, ?_⟩
-      · intro x hx
-        rcases List.mem_or_eq_of_mem_set hx with hx | hx
-        · exact h.gs x hx
-        · subst hx
-          have hd := h.gs g (List.mem_of_getElem? hg)
-          have ha : g.armed = false := hd.wf (by rw [hb]; rfl)
-          exact deadG_unarmed hd.stale hd.pend rfl ha
-      · rcases h.root with hr | hr
-        · exact Or.inl hr
-        · refine Or.inr ⟨hr.1, ?_⟩
-          intro x hx
-          by_cases hi0 : i = 0
-          · subst hi0
-            have := hr.2 g hg
-            simp [finished, hb] at this
-          · simp only [] at hx
-            rw [List.getElem?_set_ne hi0] at hx
-            exact hr.2 x hx
+      refine ⟨h.done, h.marked, hmo, ?_, h.root⟩
+      intro x hx
+      rcases List.mem_or_eq_of_mem_set hx with hx | hx
+      · exact h.gs x hx
+      · subst hx
+        have hd := h.gs g (List.mem_of_getElem? hg)
+        have ha : g.armed = false := hd.wf (by rw [hb]; rfl)
+        exact deadG_unarmed hd.stale hd.pend rfl ha
 
 theorem dead_stepStop {F : RunIdFacts} (σ : St) (h : Dead F σ) : Dead F (stepStop F σ) := by
   unfold stepStop
   split
   · have hle : σ.id ≤ (if (F.watcherStops && F.stopBumps) = true then σ.id + 1 else σ.id) := by split <;> omega
-    refine ⟨by simp [h.done], ⟨h.mainOk.main0, h.mainOk.has⟩, ?_, ?_⟩
-    · intro g hg
-      have hd := h.gs g hg
-      exact ⟨fun fr hfr => Nat.lt_of_lt_of_le (hd.stale fr hfr) hle,
-        fun pd hpd => ⟨(hd.pend pd hpd).1, Nat.lt_of_lt_of_le (hd.pend pd hpd).2 hle⟩, hd.rel, hd.wf, hd.arm⟩
-    · rcases h.root with hr | hr
-      · exact Or.inl (Nat.lt_of_lt_of_le hr hle)
-      · exact Or.inr hr
+    refine ⟨by simp [h.done], by simp [h.marked], ⟨h.mainOk.main0, h.mainOk.has⟩, ?_, Nat.lt_of_lt_of_le h.root hle⟩
+    intro g hg
+    have hd := h.gs g hg
+    refine ⟨fun fr hfr => Nat.lt_of_lt_of_le (hd.stale fr hfr) hle, ?_, hd.rel, hd.wf, hd.arm⟩
+    intro pd hpd
+    rcases hd.pend pd hpd with ⟨h1, h2⟩ | h1
+    · exact Or.inl ⟨h1, Nat.lt_of_lt_of_le h2 hle⟩
+    · exact Or.inr h1
   · exact h
 
 theorem dead_step {F : RunIdFacts} (hF : Sound F) (σ : St) (c : Choice) (h : Dead F σ) : Dead F (stepC F σ c) := by
@@ -436,7 +400,7 @@ theorem potAt_step {F : RunIdFacts} (hF : Sound F) (σ : St) (c : Choice) (h : D
     cases hg : σ.gs[i]? with
     | none => simp [stepRun, hg]
     | some g =>
-      have hd := stepG_dead hF σ g h.done (dead_hmain h hg) (h.gs g (List.mem_of_getElem? hg))
+      have hd := stepG_dead hF σ g h.done h.marked h.root (h.gs g (List.mem_of_getElem? hg))
       have m1 := (stepRun_gs F σ i g hg).1
       simp only [potAt, m1]
       have hi : i < σ.gs.length := (List.getElem?_eq_some_iff.mp hg).1
@@ -492,7 +456,7 @@ theorem tpotAt_step {F : RunIdFacts} (hF : Sound F) (σ : St) (c : Choice) (h : 
     cases hg : σ.gs[i]? with
     | none => simp [stepRun, hg]
     | some g =>
-      have hd := stepG_dead hF σ g h.done (dead_hmain h hg) (h.gs g (List.mem_of_getElem? hg))
+      have hd := stepG_dead hF σ g h.done h.marked h.root (h.gs g (List.mem_of_getElem? hg))
       have m1 := (stepRun_gs F σ i g hg).1
       simp only [tpotAt, m1]
       have hi : i < σ.gs.length := (List.getElem?_eq_some_iff.mp hg).1
@@ -543,7 +507,7 @@ theorem tpotAt_runSched {F : RunIdFacts} (hF : Sound F) (cs : List Choice) (σ :
 
 theorem weight_stepRun {F : RunIdFacts} (hF : Sound F) (σ : St) (i : Nat) (g : G) (h : Dead F σ) (hg : σ.gs[i]? = some g) :
     (stepRun F σ i).weight ≤ σ.weight ∧ (g.active (!σ.runList.isEmpty) = true → (stepRun F σ i).weight < σ.weight) := by
-  have hd := stepG_dead hF σ g h.done (dead_hmain h hg) (h.gs g (List.mem_of_getElem? hg))
+  have hd := stepG_dead hF σ g h.done h.marked h.root (h.gs g (List.mem_of_getElem? hg))
   obtain ⟨m1, m2⟩ := stepRun_gs F σ i g hg
   have hs := sumWeights_set σ.gs i g (stepG F σ g).g hg
   have e : (stepRun F σ i).weight =
